@@ -18,7 +18,7 @@ N4 = ["PPPP", "PPDdP", "PDdPP", "PPPDd"]
 
 
 def make(module_globals, prefix, oracle, patterns_quick, patterns_thorough, depth=3, quick_timeout=300,
-         thorough_timeout=1500, types=True, bound_extra="", interesting=None):
+         thorough_timeout=900, types=True, bound_extra="", interesting=None):
     """oracle(cfg, root, out, root_value, depth, rebuild) -> '' or failure text"""
     obs = []
     seen = set()
@@ -48,7 +48,7 @@ def make(module_globals, prefix, oracle, patterns_quick, patterns_thorough, dept
             body.__name__ = name
             module_globals[name] = body
             obs.append(Ob(name, body, ps, tier=tier, timeout=tmo, layer="A", functions=FUNCS, pre=pre(pat),
-                          thorough_timeout=max(tmo, 900) if tier == "both" else tmo,
+                          thorough_timeout=max(tmo, 600) if tier == "both" else tmo,
                           bound=f"root hits of kinds {pat} (harness/engine_common.py), free spans over a text of free "
                                 f"length <= 24, free sub-hit spans, free type codes, depth limit {depth}. {bound_extra}",
                           path_timeout=60))
